@@ -81,6 +81,7 @@ def run(seed, tier, replay=None):
     from opda.parametric import QuadraticDistribution as QD
     rep = C.Report("C09", seed, tier)
     rng = C.rng_for("C09", seed)
+    rng_hist = C.rng_for("C09:integrated-history", seed)     # its own stream: the instances drawn from `rng` do not depend on it
     drv = C.Driver()
     switches = Q.SWITCH_S + Q.table_min_scales()
     n_inst = 160 if tier == "quick" else 2500
@@ -160,14 +161,18 @@ def run(seed, tier, replay=None):
                 continue
             if noisy and avg_budget > 0 and s > 0:
                 avg_budget -= 1
-                integrated_checks(rep, rng, drv, k, inp, NQ, D, Dr, D0, a, b, c, convex, o, s, S, w)
+                nmn = integrated_checks(rep, rng, drv, k, inp, NQ, D, Dr, D0, a, b, c, convex, o, s, S, w)
+                integrated_history_checks(rep, rng_hist, drv, k, inp, NQ, D, Dr, D0, a, b, c, convex, o, s, S, w, *nmn)
 
     return rep.result(
         rule="instances: (a,b) as in C05 (b-a in [1e-6,1e6], |a|+|b|<=1e3(b-a)), c in 1..10, both shapes, alternately "
              "noiseless / noisy with s=o/(b-a) in {0} u log-uniform[1e-9,1e3] u both sides (1e-8..1e-1 relative) of every "
              "switch point (1e-6, 10, 5e-2, table min_scale values, 1e-2, 3e-3, 6e-4, 3e-4); pairs (D, D'=(-b,-a,c,o,not convex)) and "
              "(D, D0=(0,1,c,s)); y at 16 standardised points incl. ends, tails, log-close to the ends; q in complementary "
-             "exactly-representable pairs; n in [1,1000] real; minimize in {None,False,True}. A case is one paired comparison.",
+             "exactly-representable pairs; n in [1,1000] real; minimize in {None,False,True}. Integrated noisy average curve: each pair "
+             "once on D, D', D0 as they are, and once with a history (every one of D, D', D0 asked for both directions on the same object, "
+             "other direction first / flipped back and forth) against new objects evaluated once, all four combinations "
+             "(hist|fresh, hist|fresh) of the two members, both directions. A case is one paired comparison.",
         extra=dict(driver_lines=drv.lines,
                    oracle="the pairing itself (the property is a relation between two evaluations of the code); for the "
                           "integrated curve: adaptive Gauss-Legendre quadrature of the class's own cdf, and the Lean model of "
@@ -395,7 +400,7 @@ def integrated_checks(rep, rng, drv, k, inp, NQ, D, Dr, D0, a, b, c, convex, o, 
         # growth"); the C09 relation cannot be evaluated on this pair
         rep.skip("integrated_curve_did_not_return_within_60s_2GiB(" + status + ")")
         rep.notes.append(f"average_tuning_curve guard {status}: a={a!r} b={b!r} c={c} o={o!r} convex={convex} n={n!r} minimize={mn}")
-        return
+        return n, mn
     v, vr, v0 = val
     S0 = 1.0 + 12 * s
     tol = 2e-4 * S
@@ -404,7 +409,7 @@ def integrated_checks(rep, rng, drv, k, inp, NQ, D, Dr, D0, a, b, c, convex, o, 
     bad_r = not close(v, -vr, tol)
     bad_a = not close(v, a + w * v0, tol)
     if not (bad_r or bad_a):
-        return
+        return n, mn
     # attribute: which instance is off its own quadrature truth, and is it the documented algorithm's defect?
     tD = Q.expect_best(D, n, eff, a, b, o, 1e-9 * S)
     t0 = Q.expect_best(D0, n, eff, 0.0, 1.0, s, 1e-9 * S0)
@@ -426,6 +431,128 @@ def integrated_checks(rep, rng, drv, k, inp, NQ, D, Dr, D0, a, b, c, convex, o, 
         rep.violate(what="integrated average_tuning_curve of D is not minus the complementary curve of D' (2e-4 of the scale)"
                          + (": premature stop of the trapezoid refinement (the value equals the Lean model of the loop, so the error estimate itself was fooled)" if key else ""),
                     input=dict(inp, n=C.fhex(n), minimize=mn), expected=-vr, observed=v, detail=detail,
+                    call=cls + ".average_tuning_curve", **kw)
+    return n, mn
+
+
+HISTORIES = ("other_direction_first", "flipped_back_and_forth")
+PRIME_NAME = dict(Dr="D'", D0="D0")
+
+
+def integrated_history_checks(rep, rng, drv, k, inp, NQ, D, Dr, D0, a, b, c, convex, o, s, S, w, n, mn):
+    """history stratum of the integrated curve.  The property relates *distributions*: the maximising curve of D is minus the
+    minimising curve of D' and a+(b-a) times the curve of D0, whichever objects stand for D, D', D0 and whatever they were asked
+    before.  `integrated_checks` drives D, D', D0 through mirrored call sequences, so a state that an instance carries from one
+    call to the next (a memo on the instance that forgets the direction of optimisation, say) corrupts both members of a pair
+    in mirrored ways and cancels.  Here, in one forked child,
+      * every one of D, D', D0 is asked for BOTH directions on the same object: `other_direction_first` = the other direction,
+        then the compared call; `flipped_back_and_forth` = the compared call, the other direction, the compared call again
+        (the compared direction is minimize True / False / None as drawn, so True-then-False and False-then-True both occur);
+        the value judged for a direction is the LAST one the object returned for it ("hist");
+      * every one of D, D', D0 is also built anew and evaluated exactly once, per direction ("fresh": instance-independent);
+      * the reflection and the location-scale identity are judged, at the property's 2e-4 of the scale, for every combination
+        (hist, hist), (hist, fresh), (fresh, hist), (fresh, fresh) of the two members, for both directions - a corruption
+        common to the two members of a pair cannot cancel against a member with a different history.
+    The verdict is the property's own clause on two evaluations of the code; the quadrature of the class's own cdf and the Lean
+    model of the documented loop only attribute a failing pair to finding F4 (all members that are off their own quadrature
+    value must be F4 for the pair to count as known)."""
+    cls = "NoisyQuadraticDistribution"
+    eff = convex if mn is None else mn
+    hist = rng.choice(HISTORIES)
+    if k.get("replay") and k["replay"].get("history") in HISTORIES:
+        hist = k["replay"]["history"]
+    na = np.array([n])
+    rep.count("integrated_history=" + hist)
+    rep.count("integrated_history:compared_direction=" + ("minimize" if eff else "maximize") + ("(minimize=None)" if mn is None else ""))
+    rep.count("integrated_history:" + ("c=2(symmetric:the_two_directions_are_mirror_images)" if c == 2 else "c!=2"))
+    # role -> (constructor arguments, minimize of the compared call, minimize of the other direction, scale, effective directions)
+    roles = dict(D=((a, b, c, o, convex), mn, not eff, S),
+                 Dr=((-b, -a, c, o, not convex), None if mn is None else (not mn), eff, S),
+                 D0=((0.0, 1.0, c, s, convex), mn, not eff, 1.0 + 12 * s))
+    objs = dict(D=D, Dr=Dr, D0=D0)
+    order = ("oth", "cmp") if hist == "other_direction_first" else ("cmp", "oth", "cmp")
+
+    def sequence():
+        vals, log = {}, []
+        with warnings.catch_warnings():
+            warnings.simplefilter("ignore")
+            def avg(X, m):
+                try:
+                    return float(X.average_tuning_curve(na, minimize=m)[0])
+                except MemoryError:
+                    return None
+            for role, (args, m_cmp, m_oth, _) in roles.items():
+                for d_ in order:
+                    m = m_cmp if d_ == "cmp" else m_oth
+                    vals[role, d_, "hist"] = avg(objs[role], m)
+                    log.append((role, "same object", m, vals[role, d_, "hist"]))
+            for role, (args, m_cmp, m_oth, _) in roles.items():
+                for d_ in ("cmp", "oth"):
+                    m = m_cmp if d_ == "cmp" else m_oth
+                    vals[role, d_, "fresh"] = avg(NQ(*args), m)
+                    log.append((role, "new object", m, vals[role, d_, "fresh"]))
+        return [(kk, v) for kk, v in vals.items()], log
+
+    ncalls = 3 * len(order) + 6
+    status, got = Q.guarded_call(sequence, timeout=60.0 * ncalls / 3, extra_mem=2 << 30)
+    if status != "ok":
+        rep.skip("integrated_history_did_not_return_within_%ds_2GiB(%s)" % (20 * ncalls, status))
+        rep.notes.append(f"average_tuning_curve guard {status} ({hist}): a={a!r} b={b!r} c={c} o={o!r} convex={convex} n={n!r} minimize={mn}")
+        return
+    vals, log = dict((tuple(kk), v) for kk, v in got[0]), got[1]
+    tol = 2e-4 * S
+    truth, f4c = {}, {}
+
+    def member(role, d_, st):
+        """(off its own quadrature value by more than C08's allowance?, is that the documented loop's own defect F4?)"""
+        args, m_cmp, m_oth, S_ = roles[role]
+        e_ = (eff if d_ == "cmp" else (not eff)) if role != "Dr" else ((not eff) if d_ == "cmp" else eff)
+        if (role, d_) not in truth:
+            truth[role, d_] = Q.expect_best(objs[role], n, e_, args[0], args[1], args[3], 1e-9 * S_)
+        v = vals[role, d_, st]
+        off = not abs(v - truth[role, d_]) <= 1e-4 * S_          # 100*max(atol, 1e-6*scale) with the default atol = 1e-6*scale
+        if (role, d_, st) not in f4c:
+            f4c[role, d_, st] = off and is_F4(drv, objs[role], args[0], args[1], c, args[3], args[4], m_cmp if d_ == "cmp" else m_oth,
+                                               n, v, truth[role, d_], S_)
+        return off, f4c[role, d_, st]
+
+    describe = dict(hist=("an object that was asked for the other direction first" if hist == "other_direction_first" else
+                          "an object that was asked for the compared direction, then for the other one, before"),
+                    fresh="a new object evaluated once")
+    found = {}
+    for d_ in ("cmp", "oth"):
+        mD = roles["D"][1] if d_ == "cmp" else roles["D"][2]
+        for sD in ("hist", "fresh"):
+            for sX in ("hist", "fresh"):
+                for kind, other in (("reflect", "Dr"), ("affine", "D0")):
+                    v, x = vals["D", d_, sD], vals[other, d_, sX]
+                    if v is None or x is None:
+                        rep.skip("integrated_history_pair:a_member_ran_out_of_memory(C08's subject)")
+                        continue
+                    rep.case(("navg_hist_" + kind, inp["a"], inp["b"], c, convex, inp["s"], mn, C.fhex(n), hist, d_, sD, sX))
+                    exp = -x if kind == "reflect" else a + w * x
+                    if close(v, exp, tol):
+                        continue
+                    rep.count("integrated_history:failing_pairs")
+                    offs = [member("D", d_, sD), member(other, d_, sX)]
+                    known = any(f for _, f in offs) and all(f for off, f in offs if off)
+                    what = ("integrated average_tuning_curve of D is not " +
+                            ("minus the complementary curve of D'" if kind == "reflect" else "a+(b-a) times that of D0") +
+                            f" (2e-4 of the scale) when D is {describe[sD]} and {PRIME_NAME[other]} is {describe[sX]}")
+                    rec = dict(what=what, known=known, expected=exp, observed=v,
+                               input=dict(inp, n=C.fhex(n), minimize=mn, history=hist, pair=f"D:{sD} vs {other}:{sX}",
+                                          judged=f"D.average_tuning_curve([n], minimize={mD}) ({'the compared call' if d_ == 'cmp' else 'the other direction'})"),
+                               detail=dict(calls_in_order=[dict(distribution=r, object=ob, minimize=m, value=v_) for r, ob, m, v_ in log],
+                                           quadrature_of_own_cdf={f"{r}:{dd}": t for (r, dd), t in truth.items()},
+                                           F4={f"{r}:{dd}:{st}": f for (r, dd, st), f in f4c.items()}))
+                    # one replay per identity and pair of instances; an unexplained one takes precedence over a known one
+                    if kind not in found or (found[kind]["known"] and not known):
+                        found[kind] = rec
+    for kind, rec in found.items():
+        kw = dict(finding_key=KEY_F4) if rec["known"] else {}
+        rep.violate(what=rec["what"] + (": premature stop of the trapezoid refinement (the value equals the Lean model of the loop, so the "
+                                        "error estimate itself was fooled)" if rec["known"] else ""),
+                    input=rec["input"], expected=rec["expected"], observed=rec["observed"], detail=rec["detail"],
                     call=cls + ".average_tuning_curve", **kw)
 
 
